@@ -3,6 +3,10 @@
 //! every observable (`outputs`, `tokens`, `pretty_tokens`, `to_string`, `write`,
 //! `serialize_xml_string`, `serialize_xml_write`) is printed for the model, and the oracles of
 //! `ser_oracle.rs` evaluate C16 / C10 / C14 / C11 directly on the implementation.
+//! `ser xml_write_fail <k> …` / `ser write_fail <k> …`: the Write-based entry points into
+//! `common::FailingWriter { fail_at_call: k }` — outcome (`err:Io` at the refused call, `ok`, or the
+//! serialisation's own error if it comes first; never `panic`) and the bytes the writer holds, compared
+//! with the model (`serializeXmlWriteW (budget k)`); oracle `common::failing_writer_verdict`.
 use crate::common::{enc, guarded, Rng, Sink};
 use crate::ser_gen::{gen_params, gen_tree};
 use crate::ser_oracle;
